@@ -196,6 +196,57 @@ def run_solver(repo, kinds, solve_for=('tidal',), nondimensionalize=False, slice
             else: raise AnalysisError(f'{fr.mod.where(e)}: zgesv status argument is not a pointer')
             state['zgesv'] += 1
             return None
+        if base.endswith('zgetrf') or base.endswith('zgetrs'):
+            # the two routines the zgesv driver is made of: factorise in place (the matrix then holds L and U, the pivots go to IPIV), then substitute
+            def deref(v): return v.frame.vars[v.name] if isinstance(v, Ref) else v
+
+            def set_info(pos):
+                ie = e.args[pos] if len(e.args) > pos else None
+                tgt = fr.vars.get(ie.id) if isinstance(ie, ast.Name) else args[pos]
+                if isinstance(tgt, Ref): tgt.frame.vars[tgt.name] = 0
+                elif isinstance(tgt, Arr): tgt.set(0, 0)
+                else: raise AnalysisError(f'{fr.mod.where(e)}: {base} status argument is not a pointer')
+            lu = state.setdefault('lu', {})
+            if base.endswith('zgetrf'):
+                m_ = deref(args[0]); n = deref(args[1]); A = args[2]; ipiv = args[4]
+                if m_ != n: raise AnalysisError(f'{fr.mod.where(e)}: zgetrf of a non-square matrix is not modelled')
+                raw = [A.get(i + n * j) for j in range(n) for i in range(n)]
+                state['zgesv'] += 1
+                tag = state['zgesv']
+                lu[tag] = (n, raw)
+                for i in range(n * n):
+                    A.set(i, X.atom(f'LU factor {i} of factorisation {tag}', 'complex'))
+                if isinstance(ipiv, Arr):
+                    for i in range(n): ipiv.set(i, X.atom(f'pivot {i} of factorisation {tag}', 'pos'))
+                set_info(5)
+                return None
+            n = deref(args[1]); A = args[3]; ipiv = args[5]; b = args[6]
+            cur = [A.get(i) for i in range(n * n)]
+            tag = None
+            for t_, (n_, raw_) in lu.items():
+                if n_ == n and all(isinstance(c_, X.Node) and c_.op == 'atom' and c_.val[0] == f'LU factor {i} of factorisation {t_}' for i, c_ in enumerate(cur)):
+                    tag = t_
+            piv_ok = tag is not None and isinstance(ipiv, Arr) and all(isinstance(ipiv.store.get(ipiv._key(i)), X.Node) and ipiv.store[ipiv._key(i)].val[0] == f'pivot {i} of factorisation {tag}' for i in range(n))
+            trans = args[0]
+            tr_ok = True
+            try:
+                tv = trans.get(0) if isinstance(trans, Arr) else deref(trans)
+                tr_ok = tv in (b'N', 'N', 78, ord('N'))
+            except Exception:
+                tr_ok = True
+            if tag is None or not piv_ok or not tr_ok:
+                sol = [Opaque('arith')] * n          # substitution with something that is not the factorisation (and pivots) zgetrf produced, or of the transposed system
+            else:
+                raw = lu[tag][1]
+                bvals = [b.get(i) for i in range(n)]
+                if any(isinstance(v_, Opaque) for v_ in raw + bvals):
+                    sol = [Opaque('arith')] * n
+                else:
+                    M = [[X.lift(raw[i + n * j]) for j in range(n)] for i in range(n)]
+                    sol = cramer(M, [X.lift(v_) for v_ in bvals], n)
+            for i in range(n): b.set(i, sol[i])
+            set_info(8)
+            return None
         return NotImplemented
 
     def construct(itp, fcls, args, kwargs, e, fr):
